@@ -30,9 +30,9 @@ def run(ctx):
         nm = cfg_name(keys, rk, readd, af)
         if nm in seen: continue
         seen.add(nm)
-        qs.append(Query(nm.replace(' ', '_'), L, os.path.join(H, 'h_longest.c'), cfg_defs(keys, rk, readd, af), unwind=6, timeout=1800 if thorough else 500,
+        qs.append(Query(nm.replace(' ', '_'), L, os.path.join(H, 'h_longest.c'), cfg_defs(keys, rk, readd, af), unwind=6, timeout=2400 if thorough else 1500,
                         desc=nm + '; symbolic values, query bytes (all 256) and query length <= 3; getLongest/get/has/size vs linear scan, both representations'))
-    qs.append(Query('destroy', L, os.path.join(H, 'h_longest.c'), cfg_defs(['ab', 'a'], 'ab', None, 0) + ['DESTROY'], unwind=6, timeout=600,
+    qs.append(Query('destroy', L, os.path.join(H, 'h_longest.c'), cfg_defs(['ab', 'a'], 'ab', None, 0) + ['DESTROY'], unwind=6, timeout=1500,
                     desc='as above plus destruction of the trie (no invalid free)'))
     for q in qs:
         q.witness_vectors = [{'kval': [5, 9, 3], 'qb': [97, 98, 100, 0], 'qlen': 3, 'rval': 4}, {'kval': [1, 2, 3], 'qb': [98, 97, 0, 0], 'qlen': 2, 'rval': 4}]
